@@ -16,8 +16,12 @@ META = {
              "including recovered and escaping panics, for every defer order; a request rejected by the prefix of a writing handler never "
              "entered the engine. not_holds_of_firstBad refutes the statement from a concrete shape when a program is unsafe. The programs "
              "are extracted from the AST on every run; the model's prediction (outcome class, error code and message, counters, store "
-             "change) is compared with the real handler on generated requests; the engine below the first SummonSwamp is a parameter of "
-             "the model (assumed not to panic; tested, not proved)."),
+             "change) is compared with the real handler on generated requests. PROVED: the validation prefix of every handler and the "
+             "defer discipline, plus three engine facts that are part of the programs as `need` steps and decided by the same checker "
+             "(negative paging offset unless the beacon clamps it; a non-writing handler must know the swamp exists before SummonSwamp "
+             "creates it; a creating handler must exclude keys the V2 writer refuses) - a live engine-level defect of these kinds makes "
+             "the verdict `violated`, never `holds`. NOT PROVED (hypothesis EngineSafe of `defined`, tested on every request incl. an "
+             "injected panic at SummonSwamp): apart from those cases the engine below the first SummonSwamp answers instead of panicking."),
     "note": ("Trusted: Lean kernel (propext, Classical.choice, Quot.sound); extract/c26.go (statement shapes it accepts; anything else "
              "makes the handler unrecognised and the verdict undetermined); harness/c26.go (shape abstraction of a request, snapshot "
              "comparison). Assumed and only tested: the engine below the prefix does not panic; repeated message fields never hold nil "
@@ -71,6 +75,8 @@ def compatible(op, impl, model, pkeys):
     for k in ("p", "lock", "vig", "close"):
         if fi.get(k) != fm.get(k):
             return False
+    if fi.get("store") in ("corrupt", "lostack"):
+        return False
     if fm.get("store") != "any" and fi.get("store") != fm.get("store"):
         return False
     if ci == cm:
@@ -96,12 +102,19 @@ def impl_violation(op, line):
     """Spec oracle on the implementation's reply alone."""
     cls, kv = fields(line)
     rpc = op.split(" ")[1] if op.startswith("req ") else "?"
+    injected = op.startswith("req ") and op.split(" ")[2] == "p"      # engine panic injected by the harness
+    if cls == "nilnil" and injected:
+        cls = "recovered"                                               # the expected outcome of a recovering handler
+    if cls == "resp" and injected:
+        return "%s: the injected engine panic did not reach the handler (harness)" % rpc
     if cls in ("nilnil", "panic"):
         return "%s: %s" % (rpc, SPEC_TEXT[cls])
     if cls == "hang":
         return "%s never returned (it keeps the system lock, so the server can no longer shut down)" % rpc
     if kv.get("store") == "corrupt":
         return "%s damaged a stored treasure the request did not address" % rpc
+    if kv.get("store") == "lostack":
+        return "%s acknowledged a write (NEW / UPDATED / CREATED / PATCHED / incremented) of a key that is not there after close + reload" % rpc
     if kv.get("lock") == "1":
         return "%s left the safeops system lock held" % rpc
     if kv.get("vig") == "1":
@@ -142,6 +155,8 @@ def engine_class(line):
         return cls
     if kv.get("store") == "corrupt":
         return "corrupt"
+    if kv.get("store") == "lostack":
+        return "lostack"
     if cls.startswith("err ") and kv.get("store") == "changed":
         return "errchanged"
     if kv.get("lock") == "1":
@@ -188,6 +203,13 @@ def run(ctx):
             # independent Spec oracle over every implementation reply.  A violation on a line the model
             # flags too is a prefix-level finding keyed by (rpc, shape); otherwise it happened below the
             # prefix (the model's engine parameter) and is keyed by (rpc, what went wrong) + the mutated field
+            # a line the model flags because of an engine fact (`need` step) counts as reproduced only where the
+            # implementation's own reply shows the violation (e.g. only the legacy engine persists the empty swamp)
+            for i, fl in enumerate(c.flags):
+                if fl and any(fl[0].endswith(t) for t in ("-missingswamp", "-negfrom", "-badkey")):
+                    op = c.ops[i] if i < len(c.ops) else ""
+                    if i < len(c.impl) and not impl_violation(op, c.impl[i]):
+                        c.flags[i] = []
             engine_known = set()
             for i, line in enumerate(c.impl):
                 op = c.ops[i] if i < len(c.ops) else ""
